@@ -1,3 +1,36 @@
 """Configuration of ./check for property C04 (loaded by tools/props.py)."""
 
-PROP = {'engine': 'srv', 'lean_props': ['MuscleModel.Props.C01'], 'harnesses': [{'name': 'srv', 'sources': ['harness/srv.cpp']}]}
+PROP = {'engine': 'srv',
+ 'lean_props': ['MuscleModel.Props.C04'],
+ 'harnesses': [{'name': 'srv', 'sources': ['harness/srv.cpp']}],
+ 'trusted_base': ['hand-written Lean model of the reflector: node tree, path matcher, literal wildcard traversal, notification pipeline, command handlers '
+                  '(lean/MuscleModel/Reflector/{Glob,Tree,Traverse,Server,Handlers}.lean, Engines/Srv.lean)',
+                  'tie: harness/srv.cpp drives a real in-process ReflectServer (one ServerProcessLoop iteration at a time, real MessageIOGateways over socket '
+                  "pairs); tree digest, per-node subscriber tables and every Message each client receives must equal the model's prediction line by line",
+                  'clause patterns in the reflector model are the fragment {literal, \\\\c, *, ?, top-level comma}; the full pattern syntax is property C15; '
+                  'glibc regcomp/regexec trusted as there',
+                  'content filters in the reflector engine are int32 comparisons on one field; the full filter language is property C14'],
+ 'assumptions': ["no quiet flags / disabled subscriptions in the oracle's scope", 'F10, F11, F12 shapes excluded from the random stream'],
+ 'rule': 'generated histories over 2-5 sessions on two hosts: attach/detach, SETDATA (incl. ADDTOINDEX), REMOVEDATA with wildcards, SUBSCRIBE with/without '
+         'int32 filters, re-filter, unsubscribe, reflect-to-self, max-items, default route, client-to-client Messages with 0-2 key patterns, '
+         'INSERTORDEREDDATA, REORDERDATA, BATCH, PING, FindMatchingNodes; every 4th case is the hostile stream (arbitrary structurally valid Messages with '
+         'reserved names and wrong types, quiet flags, GETDATA, JETTISONRESULTS with filters while a client is not reading, connection cuts after a byte '
+         'prefix) followed by a witness ping after every op; direct oracles evaluated on the real server at every quiescent point; distinct = distinct case '
+         'bodies',
+ 'timeout': 600}
+
+TEXT = {'design_ref': 'DESIGN.md section 4, C04',
+ 'technique': 'Lean 4 theorem (batching of update Messages is invisible for every flush schedule and max-items value) over the reflector model + differential '
+              'correspondence of the full notification pipeline with a real in-process server + direct mirror-vs-matching-set oracle',
+ 'text': "Proved in Lean: however the server cuts one subscriber's stream of node events into PR_RESULT_DATAITEMS Messages (max-items limit of any value, "
+         'forced flush on remove-after-set, arbitrary extra flushes caused by other sessions), a client applying every Message in order (removals first, then '
+         'sets) ends with exactly the event-by-event result (`batching_invisible`, `feed_sound`).  Which events reach which subscriber (reference-counted '
+         "subscriber tables, filter transitions, initial snapshots, cleanup) is part of the executable reflector model, which reproduces the real server's "
+         "deliveries and per-node subscriber tables exactly on every generated history; the direct oracle compares each client's replayed mirror with the "
+         'brute-force matching set (PathMatcher::MatchesPath + QueryFilter::Matches over the in-process tree) at every quiescent point.  The full `converges` '
+         'theorem (statement kept in Props/C04.lean) is not proved yet: level is proof for the batching layer, correspondence + oracle for the rest.',
+ 'note': "Partial: `converges` over whole histories is validated (model correspondence + direct oracle), not proved.  Oracle premises: other sessions' nodes "
+         'only; histories with quiet flags / disabled subscriptions / explicit GETDATA are exempt by definition of those features; two subscription spellings '
+         'normalising to one path (F10), empty path clauses (F11) and re-filtering with overlapping subscriptions (F12) are kept out of the random stream.  '
+         'The order in which the subscribers of one node are notified comes from a content-addressed table cache and is not modelled: max-items is only used '
+         'in single-subscriber cases.'}
